@@ -126,7 +126,9 @@ fn main() {
                 }
                 got.into_iter().collect()
             }
-            let out = std::io::stdout(); let mut out = std::io::BufWriter::new(out.lock());
+            // (the output is gathered in memory and printed at the end: the ws library's default on_error handler println!s when no logger is
+            // enabled — a held stdout lock would block the websocket event loop for good, i.e. the harness would wedge the front end itself)
+            let mut out: Vec<u8> = Vec::new();
             for line in text.lines() {
                 if line.is_empty() { continue; }
                 writeln!(out, "> {}", line).unwrap();
@@ -158,10 +160,10 @@ fn main() {
                     }
                     "C" => {
                         let sid: usize = p[1].parse().unwrap();
-                        let cmd = proto::unesc(p.get(2).cloned().unwrap_or(""));
+                        let cmd = proto::unesc_bytes(p.get(2).cloned().unwrap_or(""));
                         let is_ws = ws_sids.contains(&sid);
                         if let Some(s) = socks.get_mut(&sid) {
-                            if is_ws { let _ = s.write_all(&ws_frame(1, cmd.as_bytes())); } else { let _ = s.write_all(format!("{}\n", cmd).as_bytes()); }
+                            if is_ws { let _ = s.write_all(&ws_frame(1, &cmd)); } else { let mut l = cmd.clone(); l.push(10); let _ = s.write_all(&l); }
                             let _ = s.flush();
                         }
                         for (s, b) in collect(&mut socks, Some(sid), 60, 3000) {
@@ -169,15 +171,18 @@ fn main() {
                             if !b.is_empty() { writeln!(out, "B {} {}", s, proto::esc_bytes(&b, false)).unwrap(); }
                         }
                     }
-                    "X" => {
+                    "X" | "XA" | "XC" => {
+                        // X: orderly end (a websocket sends close 1000 first); XA: the socket just goes away; XC <sid> <code>: a websocket close frame with that code
                         let sid: usize = p[1].parse().unwrap();
+                        let code: u16 = if p[0] == "XC" { p.get(2).and_then(|c| c.parse().ok()).unwrap_or(1000) } else { 1000 };
+                        let abrupt = p[0] == "XA";
                         // whatever is still on its way to any socket is collected before the session goes away
                         for (s, b) in collect(&mut socks, None, 80, 3000) {
                             let b = if ws_sids.contains(&s) { let wb = ws_buf.entry(s).or_default(); wb.extend_from_slice(&b); ws_decode(wb) } else { b };
                             if !b.is_empty() { writeln!(out, "B {} {}", s, proto::esc_bytes(&b, false)).unwrap(); }
                         }
                         if let Some(mut s) = socks.remove(&sid) {
-                            if ws_sids.contains(&sid) { let _ = s.write_all(&ws_frame(8, &[0x03, 0xe8])); let _ = s.flush(); std::thread::sleep(Duration::from_millis(60)); }
+                            if ws_sids.contains(&sid) && !abrupt { let _ = s.write_all(&ws_frame(8, &code.to_be_bytes())); let _ = s.flush(); std::thread::sleep(Duration::from_millis(60)); }
                             let _ = s.shutdown(std::net::Shutdown::Both); drop(s);
                         }
                         ws_sids.remove(&sid); ws_buf.remove(&sid);
@@ -187,11 +192,24 @@ fn main() {
                             if !b.is_empty() { writeln!(out, "B {} {}", s, proto::esc_bytes(&b, false)).unwrap(); }
                         }
                     }
+                    "HA" => {
+                        // an upload the peer abandons: chunked transfer, one complete chunk, then the connection goes away
+                        let body = proto::unesc_bytes(line.splitn(2, ' ').nth(1).unwrap_or(""));
+                        if let Ok(mut s) = TcpStream::connect(&http_addr) {
+                            let mut req = b"POST / HTTP/1.1\r\nHost: localhost\r\nTransfer-Encoding: chunked\r\n\r\n".to_vec();
+                            req.extend_from_slice(format!("{:x}\r\n", body.len()).as_bytes()); req.extend_from_slice(&body); req.extend_from_slice(b"\r\n");
+                            let _ = s.write_all(&req); let _ = s.flush();
+                            std::thread::sleep(Duration::from_millis(40));
+                            let _ = s.shutdown(std::net::Shutdown::Both);
+                        }
+                        std::thread::sleep(Duration::from_millis(60));
+                    }
                     "H" => {
-                        let body = proto::unesc(line.splitn(2, ' ').nth(1).unwrap_or(""));
-                        let mut s = connect(&http_addr);
-                        let req = format!("POST / HTTP/1.1\r\nHost: localhost\r\nContent-Length: {}\r\nConnection: close\r\n\r\n{}", body.as_bytes().len(), body);
-                        s.write_all(req.as_bytes()).unwrap(); s.flush().unwrap();
+                        let body = proto::unesc_bytes(line.splitn(2, ' ').nth(1).unwrap_or(""));
+                        let mut s = match TcpStream::connect(&http_addr) { Ok(s) => s, Err(e) => { writeln!(out, "H <connect-failed:{}>", e.kind()).unwrap(); continue; } };
+                        let mut req = format!("POST / HTTP/1.1\r\nHost: localhost\r\nContent-Length: {}\r\nConnection: close\r\n\r\n", body.len()).into_bytes();
+                        req.extend_from_slice(&body);
+                        let _ = s.write_all(&req); let _ = s.flush();
                         s.set_read_timeout(Some(Duration::from_millis(3000))).unwrap();
                         let mut resp = Vec::new(); let _ = s.read_to_end(&mut resp);
                         let text = String::from_utf8_lossy(&resp).into_owned();
@@ -211,7 +229,7 @@ fn main() {
                 let b = if ws_sids.contains(&s) { let wb = ws_buf.entry(s).or_default(); wb.extend_from_slice(&b); ws_decode(wb) } else { b };
                 if !b.is_empty() { writeln!(out, "B {} {}", s, proto::esc_bytes(&b, false)).unwrap(); }
             }
-            out.flush().unwrap();
+            { let so = std::io::stdout(); let mut so = so.lock(); so.write_all(&out).unwrap(); so.flush().unwrap(); }
             let _ = std::fs::remove_dir_all(&dir);
             std::process::exit(0);
         }
